@@ -26,6 +26,9 @@ structure StoreOps (σ : Type) where
   scrape : σ → Bytes → Fam → Nat × Nat
   /-- `none` = `ErrResourceDoesNotExist`; the list is in the store's iteration order -/
   announcePeers : σ → Bytes → Bool → Nat → Peer → Option (List Peer)
+  /-- the store cannot be reached (a lost Redis): every operation fails, reads that swallow their error
+  report nothing, writes change nothing. The memory store is never down. -/
+  down : σ → Bool := fun _ => false
 
 abbrev AnnHook := Ctx → AnnReq → AnnResp → Except ErrClass (Ctx × AnnResp)
 abbrev ScrHook := Ctx → ScrapeReq → ScrapeResp → Except ErrClass (Ctx × ScrapeResp)
@@ -60,6 +63,7 @@ variable {σ : Type}
 /-- `responseHook.HandleAnnounce` (reads the store) -/
 def responseAnnounce (ops : StoreOps σ) (st : σ) : AnnHook := fun ctx req resp =>
   if ctx.skipResponse then .ok (ctx, resp)
+  else if ops.down st then .error (.internal "storage failure")   -- `AnnouncePeers` returns the store's error
   else
     let (complete, incomplete) := ops.scrape st req.infoHash req.peer.fam
     let seeding := req.left = 0
@@ -76,12 +80,13 @@ def responseAnnounce (ops : StoreOps σ) (st : σ) : AnnHook := fun ctx req resp
 def responseScrape (ops : StoreOps σ) (st : σ) : ScrHook := fun ctx req resp =>
   if ctx.skipResponse then .ok (ctx, resp)
   else .ok (ctx, { files := resp.files ++ req.infoHashes.map fun ih =>
-      let (c, i) := ops.scrape st ih req.fam
+      let (c, i) := if ops.down st then (0, 0) else ops.scrape st ih req.fam   -- `ScrapeSwarm` logs its error and reports nothing
       { infoHash := ih, snatches := 0, complete := c % 2^32, incomplete := i % 2^32 } })
 
 /-- `swarmInteractionHook.HandleAnnounce` as a state transformer -/
 def swarmInteraction (ops : StoreOps σ) (st : σ) (ctx : Ctx) (req : AnnReq) : σ :=
   if ctx.skipSwarmInteraction then st
+  else if ops.down st then st   -- every write fails: nothing changes
   else match req.event with
     | .stopped => (ops.deleteLeecher (ops.deleteSeeder st req.infoHash req.peer).1 req.infoHash req.peer).1
     | .completed => ops.graduate st req.infoHash req.peer
